@@ -78,49 +78,67 @@ class Result(object):
 
 
 # --------------------------------------------------------------------------------------
-# worker plumbing: the callable is inherited through fork(), never pickled
+# worker plumbing: the callable is inherited through fork(), never pickled.
+#
+# Process isolation: EVERY chunk runs in a freshly forked child of the master, and the master
+# itself never executes code under test.  The process history of any execution is therefore
+# exactly "the items of its chunk that came before it" - a deterministic, recorded context -
+# and state that leaks between executions (module-level caches, class attributes, memoised
+# sources) can neither hide behind nor be blamed on whatever a long-lived worker did earlier.
 # --------------------------------------------------------------------------------------
 _FUNC = None
-
-
-def _call(item):
-    return _FUNC(item)
 
 
 def _call_chunk(items):
     return [_FUNC(i) for i in items]
 
 
-def pmap(func, items, chunk=None, workers=None):
-    """Ordered parallel map over ``items`` with forked workers (created once per call).
-
-    The order of results equals the order of items, so everything derived from it is
-    independent of the number of workers.  Items are dispatched in rounds (pool.map), so a
-    consumer that stops early never leaves tasks in flight (the pool is closed gracefully
-    between rounds)."""
-    global _FUNC
+def make_chunks(items, chunk=None, workers=None):
     items = list(items)
     workers = workers or n_workers()
-    if workers <= 1 or len(items) < 4:
-        for it in items:
-            yield func(it)
-        return
     if chunk is None:
         chunk = max(1, min(64, len(items) // (workers * 8) or 1))
-    chunks = [items[i:i + chunk] for i in range(0, len(items), chunk)]
-    rnd = workers * 6
+    return [items[i:i + chunk] for i in range(0, len(items), chunk)]
+
+
+def pmap_chunks(func, chunks, workers=None):
+    """Yields the list of results of each chunk, in order; one fresh forked child per chunk.
+
+    Chunks are dispatched in rounds (pool.map), so a consumer that stops early never leaves
+    tasks in flight (the pool is closed gracefully between rounds)."""
+    global _FUNC
+    workers = workers or n_workers()
+    if not chunks:
+        return
+    if os.environ.get('VERIF_INLINE'):           # debugging only: no isolation
+        for c in chunks:
+            yield [func(i) for i in c]
+        return
+    rnd = max(1, workers) * 6
     _FUNC = func
     ctx = multiprocessing.get_context('fork')
-    pool = ctx.Pool(min(workers, len(chunks)))
+    pool = ctx.Pool(max(1, min(workers, len(chunks))), maxtasksperchild=1)
     try:
         for r in range(0, len(chunks), rnd):
             for outs in pool.map(_call_chunk, chunks[r:r + rnd], chunksize=1):
-                for o in outs:
-                    yield o
+                yield outs
     finally:
         pool.close()
         pool.join()
         _FUNC = None
+
+
+def pmap(func, items, chunk=None, workers=None):
+    """Ordered parallel map (results in the order of items, independent of the number of workers)."""
+    for outs in pmap_chunks(func, make_chunks(items, chunk, workers), workers):
+        for o in outs:
+            yield o
+
+
+def in_child(func, *args):
+    """Run func(*args) in a pristine forked child and return its (picklable) result."""
+    for outs in pmap_chunks(lambda a: func(*a), [[args]], workers=1):
+        return outs[0]
 
 
 # --------------------------------------------------------------------------------------
@@ -135,7 +153,16 @@ class BfsSpec(object):
                             ``key`` is None when the successor must not be expanded further
                             (a violation diverged model and implementation).
     check_initial(hist)  -> (key, violations, tags)
+    rebuild_key(hist)    -> key
+    describe()           -> optional JSON-able dict(module=, factory=, args=) from which the spec
+                            can be rebuilt when a violation only reproduces with its chunk context
     """
+
+
+def _ctx(spec, kind, prefix, item):
+    d = spec.describe() if hasattr(spec, 'describe') else None
+    return {'engine': 'bfs', 'kind': kind, 'spec': d, 'prefix': [list(map(list, h)) for h in prefix],
+            'item': list(map(list, item)), '_spec': spec}
 
 
 def bfs(spec, max_depth, result, is_known=lambda v: False, label='', max_states=None,
@@ -144,11 +171,12 @@ def bfs(spec, max_depth, result, is_known=lambda v: False, label='', max_states=
     seen = {}
     frontier = []
     stop = False
-    for h in spec.initial():
-        key, viols, tags = spec.check_initial(h)
+    inits = list(spec.initial())
+    for h, (key, viols, tags) in zip(inits, pmap(spec.check_initial, inits, chunk=1)):
         result.executions += 1
         result.evaluations += 1
         for v in viols:
+            v['_ctx'] = _ctx(spec, 'initial', [], h)
             result.add_violation(v)
             if not is_known(v):
                 stop = True
@@ -162,22 +190,26 @@ def bfs(spec, max_depth, result, is_known=lambda v: False, label='', max_states=
     while frontier and depth < max_depth and not stop:
         frontier.sort()
         nxt = []
-        for h, outs in zip(frontier, pmap(spec.expand, frontier)):
-            for ev, key, viols, tags in outs:
-                transitions += 1
-                result.executions += 1
-                result.evaluations += 1
-                for v in viols:
-                    result.add_violation(v)
-                    if not is_known(v):
-                        stop = True
-                _note_tags(result, tags, key)
-                if key is None:
-                    continue
-                if key not in seen:
-                    h2 = h + (ev,)
-                    seen[key] = h2
-                    nxt.append(h2)
+        chunks = make_chunks(frontier)
+        for chunk_items, chunk_outs in zip(chunks, pmap_chunks(spec.expand, chunks)):
+            for i, (h, outs) in enumerate(zip(chunk_items, chunk_outs)):
+                for ev, key, viols, tags in outs:
+                    transitions += 1
+                    result.executions += 1
+                    result.evaluations += 1
+                    for v in viols:
+                        v['_ctx'] = _ctx(spec, 'expand', chunk_items[:i], h)
+                        v['_ctx']['event'] = list(ev)
+                        result.add_violation(v)
+                        if not is_known(v):
+                            stop = True
+                    _note_tags(result, tags, key)
+                    if key is None:
+                        continue
+                    if key not in seen:
+                        h2 = h + (ev,)
+                        seen[key] = h2
+                        nxt.append(h2)
         depth += 1
         level_sizes.append(len(nxt))
         frontier = nxt
@@ -185,14 +217,16 @@ def bfs(spec, max_depth, result, is_known=lambda v: False, label='', max_states=
             result.cap('%s: state cap %d hit after depth %d (target depth %d)' % (
                 label, max_states, depth, max_depth))
             break
-    # determinism self-check: rebuild a slice of the explored states in *this* process
+    # determinism self-check: rebuild a slice of the explored states, each in a pristine child
     hists = sorted(seen.items(), key=lambda kv: kv[1])
     step = max(1, len(hists) // max(1, recheck))
-    for key, h in hists[::step][:recheck]:
-        k2 = spec.rebuild_key(h)
-        result.determinism['rechecked'] += 1
-        if k2 != key:
-            result.determinism['mismatches'] += 1
+    sample = hists[::step][:recheck]
+    if not stop:
+        for (key, h), k2 in zip(sample, pmap(spec.rebuild_key, [h for _, h in sample], chunk=1)):
+            result.determinism['rechecked'] += 1
+            if k2 != key:
+                result.determinism['mismatches'] += 1
+                result.determinism.setdefault('examples', []).append([list(map(list, h))][:1])
     if result.determinism['mismatches']:
         raise HarnessError('%s: determinism recheck failed (%r)' % (label, result.determinism))
     result.states += len(seen)
@@ -224,35 +258,43 @@ def _note_tags(result, tags, key):
 def product(func, items, result, is_known=lambda v: False, label='', chunk=None,
             stop_after=50, sample_every=None):
     """func(item) -> dict(viols=[...], outcome=<hashable or None>, nontrivial=<bool>,
-                         execs=<int>, evals=<int>, ambiguous=<int>, sample=<json or None>)"""
+                         execs=<int>, evals=<int>, ambiguous=<int>, sample=<json or None>)
+    func must be a module-level function (it is named in replay files)."""
     t0 = time.time()
     items = list(items)
     n = 0
     fresh = 0
-    for item, out in zip(items, pmap(func, items, chunk=chunk)):
-        n += 1
-        result.executions += out.get('execs', 1)
-        result.evaluations += out.get('evals', 1)
-        result.boundary_ambiguous += out.get('ambiguous', 0)
-        oc = out.get('outcome')
-        if oc is not None:
-            result.outcomes.add(oc)
-        if out.get('nontrivial'):
-            result.nontrivial.add(digest(item) if oc is None else oc)
-        for k, v in (out.get('counters') or {}).items():
-            result.extra[k] = result.extra.get(k, 0) + v
-        for k, v in (out.get('sets') or {}).items():
-            result.extra.setdefault(k, set()).update(v)
-        if out.get('sample') is not None and len(result.samples) < 6 and (
-                sample_every is None or n % sample_every == 1):
-            result.samples.append(out['sample'])
-        for v in out.get('viols', ()):
-            result.add_violation(v)
-            if not is_known(v):
-                fresh += 1
+    chunks = make_chunks(items, chunk)
+    stopped = False
+    for chunk_items, chunk_outs in zip(chunks, pmap_chunks(func, chunks)):
+        for i, (item, out) in enumerate(zip(chunk_items, chunk_outs)):
+            n += 1
+            result.executions += out.get('execs', 1)
+            result.evaluations += out.get('evals', 1)
+            result.boundary_ambiguous += out.get('ambiguous', 0)
+            oc = out.get('outcome')
+            if oc is not None:
+                result.outcomes.add(oc)
+            if out.get('nontrivial'):
+                result.nontrivial.add(digest(item) if oc is None else oc)
+            for k, v in (out.get('counters') or {}).items():
+                result.extra[k] = result.extra.get(k, 0) + v
+            for k, v in (out.get('sets') or {}).items():
+                result.extra.setdefault(k, set()).update(v)
+            if out.get('sample') is not None and len(result.samples) < 6 and (
+                    sample_every is None or n % sample_every == 1):
+                result.samples.append(out['sample'])
+            for v in out.get('viols', ()):
+                v['_ctx'] = {'engine': 'product', 'module': getattr(func, '__module__', None),
+                             'func': getattr(func, '__name__', None), 'prefix': list(chunk_items[:i]),
+                             'item': item}
+                result.add_violation(v)
+                if not is_known(v):
+                    fresh += 1
         if fresh >= stop_after:
             result.cap('%s: stopped after %d fresh violations (%d of %d items done)' % (
                 label, fresh, n, len(items)))
+            stopped = True
             break
     result.states += n
     result.transitions += n
